@@ -702,7 +702,7 @@ fn write_object_key<Out: Write, W: Clone + AsRef<[u64]>>(
     let StandardJson::String(key) = frame.cursor(field.key_bp).value() else {
         return Ok(());
     };
-    if !config.ascii_output && !field.escaped {
+    if !config.ascii_output && !field.escaped && !field.raw.contains(&0x7f) {
         out.write_all(field.raw)?;
     } else if let Ok(decoded) = key.as_str() {
         out.write_all(b"\"")?;
@@ -719,6 +719,18 @@ fn write_object_key<Out: Write, W: Clone + AsRef<[u64]>>(
     out.write_all(b":")?;
     out.write_all(space_after_colon.as_bytes())?;
     Ok(())
+}
+
+/// Whether a raw string span (content between the quotes) must go through
+/// decode + `escape_json_string` instead of being echoed verbatim.
+///
+/// A backslash means an escape that may need re-spelling; a raw DEL (0x7f)
+/// is legal inside a JSON string but jq prints it as `\\u007f`
+/// (`escape::is_jq_escaped_control`), so echoing it verbatim made the lazy
+/// printer disagree with the materialized printer and with jq.
+#[inline]
+fn needs_jq_normalization(content: &[u8]) -> bool {
+    content.iter().any(|&b| b == b'\\' || b == 0x7f)
 }
 
 /// Trim leading and trailing ASCII whitespace from a byte slice.
@@ -2994,7 +3006,7 @@ where
                     // output raw bytes directly without decode/encode roundtrip.
                     // This is valid because JSON strings without backslashes need no normalization.
                     let content = &raw[1..raw.len().saturating_sub(1)]; // Content between quotes
-                    if !config.ascii_output && !content.contains(&b'\\') {
+                    if !config.ascii_output && !needs_jq_normalization(content) {
                         // Zero-copy: output raw bytes directly (includes quotes)
                         out.write_all(raw)?;
                     } else if let Ok(decoded) = s.as_str() {
@@ -3239,7 +3251,7 @@ where
                     if let SJ::String(k) = field.key() {
                         let raw = k.raw_bytes();
                         let content = &raw[1..raw.len().saturating_sub(1)];
-                        if !config.ascii_output && !content.contains(&b'\\') {
+                        if !config.ascii_output && !needs_jq_normalization(content) {
                             out.write_all(raw)?;
                         } else if let Ok(decoded) = k.as_str() {
                             out.write_all(b"\"")?;
@@ -3268,7 +3280,7 @@ where
                     if let SJ::String(k) = field.key() {
                         let raw = k.raw_bytes();
                         let content = &raw[1..raw.len().saturating_sub(1)];
-                        if !config.ascii_output && !content.contains(&b'\\') {
+                        if !config.ascii_output && !needs_jq_normalization(content) {
                             out.write_all(raw)?;
                         } else if let Ok(decoded) = k.as_str() {
                             out.write_all(b"\"")?;
